@@ -157,6 +157,11 @@ func (f *Track2) unpack(raw []byte) error {
 		return errors.New("invalid track data")
 	}
 
+	// forget what a previous Unpack or SetBytes left behind: components that are
+	// absent from this track must not keep their old values
+	f.PrimaryAccountNumber, f.Separator = "", ""
+	f.ExpirationDate, f.ServiceCode, f.DiscretionaryData = nil, "", ""
+
 	matches := track2Regex.FindStringSubmatch(string(raw))
 	for index, val := range matches {
 		value := strings.TrimSpace(val)
